@@ -52,7 +52,10 @@ def occupation_of(asym):
     occ = asym.properties.get("occupation", None)
     if occ is None:
         return np.ones(len(asym), dtype=np.float64)
-    return np.array(occ, dtype=np.float64, copy=True)
+    try:
+        return np.array(occ, dtype=np.float64, copy=True)
+    except (TypeError, ValueError):  # e.g. '?' (unknown) in a CIF occupancy column
+        return _arr(np.asarray(occ))
 
 
 def norm_crystal(c):
@@ -359,8 +362,24 @@ def _feed_raw(h, x, depth=0):
             _feed_raw(h, v, depth + 1)
             h.update(b",")
         h.update(b"]")
-    else:
+    elif x is None or isinstance(x, (str, bytes, int, float, complex, bool, np.generic)):
         h.update(repr(x).encode())
+    elif depth < 8 and (hasattr(x, "__dict__") or hasattr(type(x), "__slots__")):
+        # holder objects: by content, never by identity (repr would carry an address)
+        h.update(b"<" + type(x).__name__.encode())
+        names = list(vars(x)) if hasattr(x, "__dict__") else []
+        for klass in type(x).__mro__:
+            for n in getattr(klass, "__slots__", ()) or ():
+                if n not in names and hasattr(x, n):
+                    names.append(n)
+        for n in names:
+            h.update(n.encode() + b"=")
+            _feed_raw(h, getattr(x, n), depth + 1)
+        h.update(b">")
+    elif isinstance(x, (set, frozenset)):
+        h.update(repr(sorted(repr(v) for v in x)).encode())
+    else:
+        h.update(type(x).__name__.encode())
 
 
 def memo_digest(c):
